@@ -792,3 +792,83 @@ def movefield(h):
                                               z3.And(0 <= finv(p_), finv(p_) < o.len - 1,
                                                      z3.Select(o.arr, z3.If(finv(p_) < pos, finv(p_), finv(p_) + 1)) == z3.Select(hdr.arr, p_)))))
     h.explore(body)
+
+
+# ------------------------------------------------------------------------------------------------ addfieldusingcontext
+AFC = B + 'iteraddfieldusingcontext'
+
+
+@vc('C12.iteraddfieldusingcontext', functions=[AFC, 'petl.util.base.Record.__init__'], props=['C12', 'C03'],
+    assumptions=['`query` is a deterministic callback on (previous, current, next) records that may raise',
+                 'hybrid loop rule: `cur` is a function of the position (invariant); `prv` is only known to be None exactly at the first '
+                 'data row and some record afterwards (that it is the previous OUTPUT row is decided by the bounded layer)'])
+def iteraddfieldusingcontext(h):
+    """every data row i gives exactly one output row = the cells of row i, unchanged and in order, plus ONE new cell: the result of
+    the single call query(prv, row i, row i+1 or None) made for it; header = source header + (field,); one row of look-ahead."""
+    def body(ctx):
+        box = {}
+
+        def record(i):
+            return it.call(Rec, [SCell(z3.Select(S.rows, i)), flds_box[0]], {})
+
+        def rebind(ls):
+            k = ls.k.t
+            flds_box[0] = ls['flds']
+            ls.env.vars['cur'] = record(k - 1)
+            ls.env.vars['prv'] = None if ctx.branch(k == 2, 'second data row') else it.call(Rec, [sym_seq(ctx, 'prvrow', 'tuple'), flds_box[0]], {})
+            box['ncalls'] = len(ls['query'].calls)
+
+        def is_row(v, i):
+            return _t(row_eq(view_seq(SCell(v)), src_row(S, i)))
+
+        def rec_is(r, i):
+            return is_row(as_v(r.attrs['_tuple']), i) if isinstance(r, Instance) else z3.BoolVal(False)
+
+        def inv(ls):
+            k = ls.k.t
+            cur, prv = ls['cur'], ls['prv']
+            p = (k == 2) if prv is None else z3.And(k > 2, z3.BoolVal(isinstance(prv, Instance)))
+            return z3.And(k >= 2, rec_is(cur, k - 1), p)
+
+        def judge(dout, call, i, first, last):
+            pv, cv, nv = call
+            r, raises, exc = bi.ucall_terms('query', [pv, cv, nv])
+            row = src_row(S, i)
+            o = out_row(dout, 0)
+            q = smt.fresh_int('q')
+            args_ok = z3.And(is_row(cv, i), (pv == as_v(None)) == first, (nv == as_v(None)) if last else is_row(nv, i + 1))
+            return z3.And(args_ok, dout.len == 1, o.len == row.len + 1, z3.Select(o.arr, row.len) == r,
+                          z3.ForAll([q], z3.Implies(z3.And(0 <= q, q < row.len), z3.Select(o.arr, q) == z3.Select(row.arr, q))))
+
+        def delta(ls, x, dout):
+            k = ls.k.t
+            calls = ls['query'].calls
+            ctx.oblige('addfieldusingcontext: one call of query per step', z3.BoolVal(len(calls) == box['ncalls'] + 1))
+            ctx.oblige('addfieldusingcontext: data row i gives exactly one output row: its cells unchanged + query(prv (None iff first), row i, row i+1)',
+                       judge(dout, calls[-1], k - 1, k == 2, False))
+        spec = LoopSpec(invariant=inv, delta=delta, label='rows (with one row of look-ahead)')
+        spec.rebind = rebind
+        spec.lookahead = 1
+        it = h.interp(ctx, loops={(AFC, 0): spec})
+        flds_box = [None]
+        S = sym_table(ctx, 'S', nmin=1)
+        field = sym_cell('field')
+        Rec = closure_of(it, 'petl.util.base.Record')
+        res = run_generator(it, closure_of(it, AFC), [S, field, UCall('query')])
+        if res.exc is not None:
+            ctx.oblige('addfieldusingcontext: only the exception of `query` escapes', z3.BoolVal(res.exc.kind == 'UserError'), res.exc.origin or '')
+            return
+        if getattr(ctx, 'after_loop', None):
+            n = S.n
+            calls = res.env.lookup('query').calls
+            ctx.oblige('addfieldusingcontext: the last data row is extended with query(prv, row, None)', judge(res.out, calls[-1], n - 1, n == 2, True))
+            pre = ctx.pre_loop_out
+            hdr = src_row(S, 0)
+            o = out_row(pre, 0)
+            q = smt.fresh_int('q')
+            ctx.oblige('addfieldusingcontext: header = source header + (field,), once',
+                       z3.And(pre.len == 1, o.len == hdr.len + 1, z3.Select(o.arr, hdr.len) == field.t,
+                              z3.ForAll([q], z3.Implies(z3.And(0 <= q, q < hdr.len), z3.Select(o.arr, q) == z3.Select(hdr.arr, q)))))
+        else:
+            ctx.oblige('addfieldusingcontext: a table without data rows yields the header only', z3.And(res.out.len <= 1, S.n <= 1))
+    h.explore(body)
